@@ -24,6 +24,10 @@ Theorem C08_consts_ok :
   Forall (fun r => 1 <= r <= max_resolution) allowed_resolutions.
 Proof. exact consts_ok. Qed.
 
+(* Agent.FlushAllData walks exactly the whole ring (the loop bound is probed from the real function on every run) *)
+Theorem C08_flush_all_walks_whole_ring : flush_all_steps = queue_len.
+Proof. exact flush_all_steps_ok. Qed.
+
 (* "Every event an agent shard accepts is delivered to sending in exactly one bucket": at every moment of every
    history the rows in the ring slots plus the rows of all buckets handed to BucketsToPreprocess are a permutation
    of the rows ever stored (acc = ghost log of apply_core) — nothing lost, nothing duplicated, no slot overwritten *)
